@@ -71,6 +71,10 @@ type Client struct {
 	// that arrive meanwhile are announced before the rescan finishes, and the
 	// rescan covers them, as with a backend that rescans up to its current tip.
 	DuringRescan func()
+	// ProgressEvery > 0 makes Rescan report its progress (RescanProgress) after
+	// every ProgressEvery-th scanned block, as btcd does every few seconds and
+	// bitcoind-backed clients do every 10000 blocks.
+	ProgressEvery int
 	// FailHeightOnce makes GetBlockHash fail once when asked for this height (0: off).
 	FailHeightOnce int64
 	counts  map[string]int
@@ -517,6 +521,9 @@ func (cl *Client) Rescan(start *chainhash.Hash, addrs []btcutil.Address, ops map
 			m := bm
 			cl.Push(chain.FilteredBlockConnected{Block: &m, RelevantTxs: recs})
 			cl.Push(chain.BlockConnected(bm))
+		}
+		if cl.ProgressEvery > 0 && int(h-from+1)%cl.ProgressEvery == 0 && int(h) < len(best)-1 {
+			cl.Push(&chain.RescanProgress{Hash: b.Hash, Height: b.Height, Time: b.Time()})
 		}
 	}
 	tip := best[len(best)-1]
